@@ -2,7 +2,12 @@ import TlxVerif.Props.C01
 #print axioms TlxVerif.C01.find_lower_binary_eq_linear
 #print axioms TlxVerif.C01.find_upper_binary_eq_linear
 #print axioms TlxVerif.C01.insert_refines
+#print axioms TlxVerif.C01.insert_step_refines
+#print axioms TlxVerif.C01.insert_history_refines
 #print axioms TlxVerif.C01.descent_reaches_bound
-#print axioms TlxVerif.C01.insert_history_refines_partial
+#print axioms TlxVerif.C01.lower_bound_refines
+#print axioms TlxVerif.C01.upper_bound_refines
+#print axioms TlxVerif.C01.find_refines
+#print axioms TlxVerif.C01.exists_refines
 #print axioms TlxVerif.C01.insertDescend_flatten
 #print axioms TlxVerif.C01.insertDescend_sep
